@@ -60,7 +60,14 @@ class Ctx:
         finally:
             self.rule_prefix = old
 
+    def _rid(self, rid):
+        pre = getattr(self, "rule_prefix", "")
+        if rid not in self.rules and pre and (pre + rid) in self.rules:
+            return pre + rid
+        return rid
+
     def ok(self, rid, instance):
+        rid = self._rid(rid)
         r = self.rules[rid]
         r["obligations"] += 1
         r["discharged"] += 1
@@ -68,6 +75,7 @@ class Ctx:
             r["instances"].append(instance)
 
     def fail(self, rid, where, what, key_parts, detail=None, instance=None):
+        rid = self._rid(rid)
         r = self.rules[rid]
         r["obligations"] += 1
         f = Finding(self.prop, rid, where, what, key_parts, detail)
